@@ -304,6 +304,67 @@ def run(ctx):
                     'allocate + record exactly once otherwise (hit ok: %s, miss ok: %s)' % (hit_ok, miss_ok))
     except (EvalError, KeyError) as e:
         res.error('arena functions not analysable: %s' % e)
+    # (a7) removal by name deletes the item that carries that name, nothing else
+    for wp, argn in (('module::exports::ModuleExports::remove', ['name']), ('module::imports::ModuleImports::remove', ['module', 'name'])):
+        short = wp.split('::')[-2]
+        if wp not in F.hir:
+            continue
+        try:
+            ws7 = Evaluator(F, local_policy(F, wp, events=[r'::delete$'])).run_fn(wp, [sym('self')] + [sym(a) for a in argn])
+        except EvalError as e:
+            res.error('%s not analysable: %s' % (wp, e))
+            continue
+        bad7 = None
+        n7 = 0
+        for w in ws7:
+            if w.outcome != 'return' or not (isinstance(w.value, tuple) and w.value and w.value[0] == 'ctor' and w.value[2] == 'Ok'):
+                continue
+            dels = [e for e in w.trace if e['kind'] == 'call' and e['callee'].endswith('::delete')]
+            if len(dels) != 1 or dels[0]['args'][0] != sym('self'):
+                bad7 = 'deletes %d items' % len(dels)
+                continue
+            a7 = dels[0]['args'][1]
+            # id of the element found
+            t = a7
+            if t[0] == 'call' and t[1].endswith('::id') and len(t[2]) == 1:
+                t = t[2][0]
+            elif t[0] == 'field' and t[2] == 'id':
+                t = t[1]
+            while t[0] == 'ok':
+                t = t[1]
+            if not (t[0] == 'call' and t[1].split('::')[-1] == 'find' and len(t[2]) == 2 and 'self.arena' in show(t[2][0])):
+                bad7 = 'deletes %s, which is not the item found by walking this collection' % show(a7)[:80]
+                continue
+            pred = t[2][1]
+            if show(pred) == 'False':
+                continue            # the generic element does not match: it is skipped
+            eqs = set()
+
+            def eq_of(x, truth=True):
+                if x[0] == 'bin' and x[1] == 'Eq' and truth:
+                    l, r = show(x[2]), show(x[3])
+                    for fld_side, arg_side in ((l, r), (r, l)):
+                        m = re.match(r'^elem\(.*\)(\.1)?\.(\w+)$', fld_side)
+                        if m and arg_side in argn:
+                            eqs.add((m.group(2), arg_side))
+                elif x[0] == 'bin' and x[1] == 'And' and truth:
+                    eq_of(x[2]); eq_of(x[3])
+            if show(pred) == 'True':
+                for k, v in w.assumptions:
+                    if isinstance(k, tuple) and k and k[0] == 'atom':
+                        eq_of(k[1], v is True)
+            else:
+                eq_of(pred)
+            if eqs != {(a, a) for a in argn}:
+                bad7 = 'selects the item to delete by %s instead of by %s' % (sorted(eqs) or show(pred)[:80], argn)
+                continue
+            n7 += 1
+        if bad7:
+            res.bad('remove-by-name/' + short, '%s::remove %s: an item other than the named one can disappear' % (short, bad7))
+        elif n7:
+            res.ok('remove-by-name/' + short, {'remove': short, 'deletes': 'the item whose %s equal the arguments' % '/'.join(argn)})
+        else:
+            res.error('%s::remove: no successful world' % short)
     # (a6) wrappers
     wrappers = ['module::tables::ModuleTables', 'module::memories::ModuleMemories', 'module::globals::ModuleGlobals',
                 'module::data::ModuleData', 'module::elements::ModuleElements', 'module::functions::ModuleFunctions',
